@@ -134,11 +134,11 @@ def check_c50(ctx):
         runs.append(("full3", static_defs(3, FULL, ["GET"], ["", "index.html"], [True], ["gzip"]), None))
         runs.append(("full2", static_defs(2, FULL, ["GET", "HEAD", "POST", "PUT", "DELETE", "OPTIONS"],
                                           ["", "index.html", "sub/b.txt"], [True, False], ["", "gzip"]), None))
-        runs.append(("core5", static_defs(5, CORE, ["GET"], ["", "index.html"], [True], ["gzip"]), None))
+        runs.append(("core5", static_defs(5, CORE8, ["GET"], ["", "index.html"], [True], ["gzip"]), None))
         runs.append(("given", static_defs(0, CORE, ["GET", "HEAD"], ["", "sub/b.txt"], [True, False], ["", "gzip"]),
-                     given_paths(ctx, 12000, 3, 8)))
+                     given_paths(ctx, 5000, 3, 8)))
         # model checking only (no replay): the full alphabet one segment deeper with all switches
-        d = static_defs(3, FULL, ["GET", "HEAD"], ["", "index.html"], [True, False], ["", "gzip"])
+        d = static_defs(3, FULL, ["GET"], ["", "index.html"], [True, False], ["", "gzip"])
         ctx.cov["constants"]["MC_Static_full3"] = d
         ctx.tlc_must_pass(SPEC, "Static", "MC_Static.cfg", defines=d, timeout=2400)
     for name, d, given in runs:
